@@ -212,6 +212,15 @@ func golubKahanSVD(inSitu *InSitu, epsilon float64) (Matrix, Matrix, Matrix, err
   }
   B := H.Slice(0,n,0,n)
 
+  // largest element of B
+  bnorm := 0.0
+  for i := 0; i < n; i++ {
+    for j := i; j < n && j <= i+1; j++ {
+      if b := math.Abs(B.At(i,j).GetFloat64()); b > bnorm {
+        bnorm = b
+      }
+    }
+  }
   // the number of steps is bounded, otherwise the algorithm does not terminate
   // if the convergence criterion cannot be met (e.g. if entries overflow)
   maxIterations := 10000 + 1000*n*n
@@ -235,7 +244,11 @@ func golubKahanSVD(inSitu *InSitu, epsilon float64) (Matrix, Matrix, Matrix, err
       // check diagonal elements in B22
       t := true
       for k := p; k < n-q-1; k++ {
-        if B.At(k,k).GetFloat64() == 0.0 {
+        // (a diagonal element that is negligible compared to the matrix is
+        // treated as zero, otherwise the iteration stalls on rank deficient
+        // matrices with a diagonal element that shrinks but never vanishes)
+        if math.Abs(B.At(k,k).GetFloat64()) <= epsilon*bnorm {
+          B.At(k,k).SetFloat64(0.0)
           zeroRow(B, U, V, k, inSitu); t = false
         }
       }
